@@ -43,7 +43,7 @@ func runPost(payload []byte) string {
 			}
 		}()
 		// proxy/udp.go and tcp.go log a parse error and resolve anyway
-		q, _ := query.New(p, loopback, loopback)
+		q, _ := query.New(p, transportPeer(payload), loopback)
 		rt := &ecsRecRT{}
 		d := &resolver.DOH{URL: "https://doh.invalid/x"}
 		ctx, cancel := context.WithTimeout(context.Background(), 2*time.Second)
@@ -327,7 +327,7 @@ func runEnc(f []string) string {
 	}
 	stage := strings.SplitN(line, " ", 2)[0]
 	peer := "none"
-	if !q.PeerIP.Equal(loopback) || len(q.PeerIP) != len(loopback) {
+	if !samePeer(q.PeerIP, transportPeer(msg)) {
 		peer = hx(q.PeerIP)
 	}
 	return fmt.Sprintf("enc=%s %s peer=%s payload=%s", enc, stage, peer, hx(q.Payload))
